@@ -9,7 +9,9 @@ RULE = ("exhaustive: every graph id 0..2^(n(n-1)/2)-1 for n = 2..6 (33 867 graph
         "n = 2..6; every index of every to_*/from_* pair of linear_index. A case is (n, graph id[, vertex]) or "
         "(codec, index); non-trivial = graph not invariant under reversal of the vertex order (so the bit layout is "
         "observable) / class id whose grouping is not the trivial one; distinct by the case itself. Oracle: "
-        "adjacency-bitmask re-implementation of the documented bit layout and of local complementation, LC-orbit table.")
+        "adjacency-bitmask re-implementation of the documented bit layout and of local complementation, LC-orbit table. Plus "
+        "Hypothesis sequences of graph operations (add/remove edge, in-place complementation, swap, clear, path, copy) with "
+        "compress()/decompress() after every step against a bitmask model (not exhaustive).")
 ASSUMPTIONS = ["adjacency-bitmask oracle (self-tested)", "documented bit layout: row-major upper triangle, LSB first"]
 KCOUNT = {2: 2, 3: 5, 4: 18, 5: 93, 6: 760}
 
@@ -222,6 +224,112 @@ def shard_codecs(arg):
     return rep
 
 
+# ---- model-based sequences of graph operations (the graph object vs. an adjacency-bitmask model) ----------------
+
+def check_graph_ops(case):
+    L = libif.lib()
+    n, gid0 = case["n"], case["gid"]
+    fails = []
+    g = L.Graph.decompress(n, gid0)
+    adj = lc.adj_from_gid(n, gid0)
+
+    def model_edge(i, j, val):
+        if i == j:
+            return
+        for a, b in ((i, j), (j, i)):
+            if val:
+                adj[a] |= 1 << b
+            else:
+                adj[a] &= ~(1 << b)
+
+    for step, op in enumerate(case["ops"]):
+        name = op[0]
+        try:
+            if name == "add":
+                g.add_edge(op[1], op[2]); model_edge(op[1], op[2], 1)
+            elif name == "remove":
+                g.remove_edge(op[1], op[2]); model_edge(op[1], op[2], 0)
+            elif name == "lc":
+                g.local_complementation(op[1]); adj[:] = lc.local_complement(n, adj, op[1])
+            elif name == "swap":
+                i, j = op[1], op[2]
+                g.swap(i, j)
+                perm = list(range(n)); perm[i], perm[j] = perm[j], perm[i]
+                new = [0] * n
+                for a in range(n):
+                    for b in range(n):
+                        if adj[a] >> b & 1:
+                            new[perm[a]] |= 1 << perm[b]
+                adj[:] = new
+            elif name == "clear":
+                g.clear(); adj[:] = [0] * n
+            elif name == "path":
+                g.add_path(list(op[1]))
+                for a, b in zip(op[1], op[1][1:]):
+                    model_edge(a, b, 1)
+            elif name == "isolate":
+                g.remove_all_edges_to(op[1])
+                for a in range(n):
+                    model_edge(a, op[1], 0)
+            elif name == "copy":
+                g = g.copy()
+            elif name == "compress":
+                pass
+        except Exception as e:  # noqa: BLE001
+            fails.append((f"graph-ops/raised:{name}", f"n={n}: {name}{tuple(op[1:])} raised {type(e).__name__}({e}) at step {step} of {case['ops']} from graph {gid0}", {}))
+            return fails
+        want_gid = lc.gid_from_adj(n, adj)
+        a = np.asarray(g.adjacency_matrix).astype(np.int64)
+        if not np.array_equal(a, matrix_from_masks(n, adj)):
+            fails.append((f"graph-ops/adjacency:{name}", f"n={n}: after {case['ops'][:step + 1]} from graph {gid0} the adjacency matrix differs from the model (expected graph {want_gid})", {}))
+            return fails
+        try:
+            got = int(g.compress())
+            back = L.Graph.decompress(n, got)
+            if got != want_gid:
+                fails.append((f"graph-ops/compress-after:{name}", f"n={n}: compress() = {got} after {case['ops'][:step + 1]} from graph {gid0}, the graph now is {want_gid}", {"observed": got, "expected": want_gid}))
+                return fails
+            if not (back == g):
+                fails.append((f"graph-ops/decompress-roundtrip:{name}", f"n={n}: decompress(compress(g)) != g after {case['ops'][:step + 1]} from graph {gid0}", {}))
+                return fails
+            if int(g.edge_count()) != bin(want_gid).count("1") or sorted(map(tuple, g.get_edges())) != sorted(lc.edges_from_gid(n, want_gid)):
+                fails.append((f"graph-ops/edges:{name}", f"n={n}: edge_count/get_edges wrong after {case['ops'][:step + 1]} from graph {gid0}", {}))
+                return fails
+        except Exception as e:  # noqa: BLE001
+            fails.append((f"graph-ops/raised:compress", f"n={n}: compress/decompress raised {type(e).__name__} after {case['ops'][:step + 1]}", {}))
+            return fails
+    return fails
+
+
+def graph_ops_strategy():
+    from hypothesis import strategies as st
+
+    @st.composite
+    def cases(draw):
+        n = draw(st.sampled_from([2, 3, 4, 5, 6]))
+        gid = draw(st.integers(0, (1 << (n * (n - 1) // 2)) - 1))
+        v = st.integers(0, n - 1)
+        op = st.one_of(st.tuples(st.just("add"), v, v), st.tuples(st.just("remove"), v, v), st.tuples(st.just("lc"), v), st.tuples(st.just("lc"), v),
+                       st.tuples(st.just("swap"), v, v), st.tuples(st.just("clear")), st.tuples(st.just("path"), st.lists(v, min_size=0, max_size=4)),
+                       st.tuples(st.just("isolate"), v), st.tuples(st.just("copy")), st.tuples(st.just("compress")))
+        ops = [list(o) for o in draw(st.lists(op, min_size=1, max_size=10))]
+        return {"n": n, "gid": gid, "ops": ops}
+    return cases()
+
+
+def classify_ops(case):
+    kinds = {o[0] for o in case["ops"]}
+    nt = ("ops", case["n"], case["gid"], repr(case["ops"])) if ("lc" in kinds and len(case["ops"]) >= 2) else None
+    return nt, {"graph_op_sequences": f"n={case['n']}"}
+
+
+def shard_graph_ops(arg):
+    seed, n_examples, deadline = arg
+    rep = fw.Report()
+    fw.hyp_search(graph_ops_strategy(), check_graph_ops, rep, seed, n_examples, classify=classify_ops, deadline_ts=deadline)
+    return rep
+
+
 def run(ctx):
     rep = fw.Report()
     args = [("codecs",)]
@@ -235,6 +343,8 @@ def run(ctx):
         for lo in range(0, N, step):
             gargs.append((n, lo, min(N, lo + step), True, stride))
     rep.merge(fw.run_shards(ctx, "props.c19", "shard_graphs", gargs))
+    oargs = [(ctx.seed * 1000 + i, 120 if ctx.quick else 3000, ctx.deadline) for i in range(16)]
+    rep.merge(fw.run_shards(ctx, "props.c19", "shard_graph_ops", oargs))
     rep.extra["exhaustive"] = True
     rep.extra["exhaustive_note"] = ("codec / complementation predicates over all graphs, vertices, class ids and grouping indices; "
                                     "the library classifier is re-run on " + ("every" if not ctx.quick else "every n<=5 and 1/8 of the n=6")
@@ -244,6 +354,8 @@ def run(ctx):
 
 def replay(case):
     rep = fw.Report()
+    if "ops" in case:
+        return [{"key": k, "msg": m, "case": case} for k, m, e in check_graph_ops(case)]
     if "gid" in case:
         check_graph(case["n"], case["gid"], rep, True)
         if "vertex" in case:
